@@ -1,6 +1,8 @@
 """Hypothesis glue: seeded, database-free searches that collect one minimal
 case per root-cause signature ("collect then shrink") instead of stopping at
 the first failure."""
+import time
+
 import hypothesis
 from hypothesis import HealthCheck, Phase, given, settings
 from hypothesis.stateful import run_state_machine_as_test
@@ -27,7 +29,7 @@ def make_settings(n, shrink=True, steps=None):
 
 
 def search(strategy, run_case, res, n, seed, prop, nontrivial=None, classify=None,
-           shrink=True, max_rounds=6, to_json=None):
+           shrink=True, max_rounds=6, to_json=None, reducer=None, extra_rounds_budget_s=30.0):
     """Drive run_case(case) -> [(sig, msg)] with cases from `strategy`.
 
     Every distinct signature found is recorded in res.violations with the
@@ -36,7 +38,13 @@ def search(strategy, run_case, res, n, seed, prop, nontrivial=None, classify=Non
     """
     found = set()
     to_json = to_json or (lambda c: c)
+    t_start = time.monotonic()
     for rnd in range(max_rounds):
+        # rounds after the first only look for *further* root causes behind one already found;
+        # they are cut short when the wall-clock budget is spent (this limits how many signatures
+        # are reported for a broken tree, never the verdict)
+        if rnd > 0 and time.monotonic() - t_start > extra_rounds_budget_s:
+            break
         last = {}
         first_round = rnd == 0
 
@@ -44,6 +52,9 @@ def search(strategy, run_case, res, n, seed, prop, nontrivial=None, classify=Non
         @make_settings(n, shrink=shrink)
         @given(strategy)
         def t(case):
+            if not first_round and time.monotonic() - t_start > extra_rounds_budget_s:
+                res.label("skipped-after-time-budget")
+                return
             res.count()
             try:
                 vs = run_case(case) or []
@@ -72,7 +83,10 @@ def search(strategy, run_case, res, n, seed, prop, nontrivial=None, classify=Non
             t()
         except _Found:
             sig, msg = last["v"]
-            res.violation(sig, last["case"], msg)
+            case = last["case"]
+            if reducer is not None:
+                case = greedy_reduce(case, sig, run_case, reducer)
+            res.violation(sig, case, msg)
             found.add(sig)
             continue
         except hypothesis.errors.Flaky as e:  # nondeterministic: report what we saw
@@ -84,6 +98,32 @@ def search(strategy, run_case, res, n, seed, prop, nontrivial=None, classify=Non
             raise
         break
     return found
+
+
+def greedy_reduce(case, sig, run_case, candidates, budget=120, budget_s=15.0):
+    """Cheap minimiser for expensive cases (used instead of Hypothesis' shrinker when that would
+    blow the time budget): repeatedly try the smaller cases proposed by candidates(case) and keep
+    the first that still produces signature `sig`.  Bounded by evaluations and wall clock; the
+    bound only limits how small the reported case gets."""
+    import copy
+    spent = 0
+    improved = True
+    t0 = time.monotonic()
+    while improved and spent < budget and time.monotonic() - t0 < budget_s:
+        improved = False
+        for cand in candidates(copy.deepcopy(case)):
+            spent += 1
+            try:
+                vs = run_case(cand) or []
+            except Exception:  # noqa
+                vs = []
+            if any(v[0] == sig for v in vs):
+                case = cand
+                improved = True
+                break
+            if spent >= budget or time.monotonic() - t0 > budget_s:
+                break
+    return case
 
 
 def run_machine(machine_cls, n, seed, steps, shrink=True):
